@@ -72,13 +72,15 @@ fam_fits(const struct layout *l, RegisterType t, uint32_t addr)
     return false;
 }
 
+static uint32_t fam_shift; /* added to every address of the table being built */
+
 static void
 fam_areas(struct tspec *s, const struct layout *l, const int acc[3], int backing)
 {
     /* acc: 0 RW, 1 RO, 2 WO, 3 RO without write callback; backing: 0 mem, 1 cb, 2 alternating */
     s->na = l->na;
     for (int i = 0; i < l->na; ++i) {
-        s->a[i].base = l->base[i];
+        s->a[i].base = l->base[i] + fam_shift;
         s->a[i].size = l->size[i];
         s->a[i].flags = (uint16_t)(acc[i] == 0 ? REG_AF_RW : acc[i] == 2 ? REG_AF_WRITEABLE : REG_AF_READABLE);
         s->a[i].nowrite = (acc[i] == 3);
@@ -97,10 +99,19 @@ fam_enumerate(fam_fn fn, bool thorough)
     /* ---- F1 ---- */
     for (int li = 0; li < NLAYOUTS; ++li) {
         const struct layout *l = &LAYOUTS[li];
-        for (int combo = 0; combo < 3; ++combo) {
+        for (int combo = 0; combo < 4; ++combo) {
             if (combo == 2 && l->na == 1)
                 continue;
-            const int backing = combo;       /* 0 mem, 1 cb, 2 alternating */
+            /* combo 3: memory-backed, little-endian, all addresses moved up so
+             * that the table straddles the 16-bit address boundary (layouts A
+             * and C; thorough: all) */
+            fam_shift = 0;
+            if (combo == 3) {
+                if (!thorough && li != 0 && li != 2)
+                    continue;
+                fam_shift = 0xfffc;
+            }
+            const int backing = combo == 3 ? 0 : combo;       /* 0 mem, 1 cb, 2 alternating */
             const bool be = (combo == 1);
             /* singles */
             for (unsigned ti = 0; ti < 5; ++ti)
@@ -113,7 +124,7 @@ fam_enumerate(fam_fn fn, bool thorough)
                         fam_areas(&s, l, RW3, backing);
                         s.nr = 1;
                         s.r[0].type = FAM_TYPES1[ti];
-                        s.r[0].addr = a;
+                        s.r[0].addr = a + fam_shift;
                         fam_constrain(&s.r[0], ck);
                         fn(&s, idx++);
                     }
@@ -136,10 +147,10 @@ fam_enumerate(fam_fn fn, bool thorough)
                             fam_areas(&s, l, RW3, backing);
                             s.nr = 2;
                             s.r[0].type = FAM_TYPES2[t1];
-                            s.r[0].addr = a1;
+                            s.r[0].addr = a1 + fam_shift;
                             fam_constrain(&s.r[0], 2 + (rot % 4));        /* min,max,range,cb */
                             s.r[1].type = FAM_TYPES2[t2];
-                            s.r[1].addr = a2;
+                            s.r[1].addr = a2 + fam_shift;
                             fam_constrain(&s.r[1], (rot / 4) % 6);
                             rot++;
                             fn(&s, idx++);
@@ -162,7 +173,7 @@ fam_enumerate(fam_fn fn, bool thorough)
                         }
                     }
                     s.r[s.nr].type = t;
-                    s.r[s.nr].addr = a;
+                    s.r[s.nr].addr = a + fam_shift;
                     fam_constrain(&s.r[s.nr], (k + 2 * variant) % 6 == K_FAIL ? K_RANGE : (k + 2 * variant) % 6);
                     s.nr++;
                     a += ref_words(t);
@@ -172,6 +183,7 @@ fam_enumerate(fam_fn fn, bool thorough)
             }
         }
     }
+    fam_shift = 0;
     /* ---- F2 ---- */
     static const int ACC3[10][3] = {
         { 0, 1, 0 }, { 1, 0, 0 }, { 0, 0, 1 }, { 2, 0, 0 }, { 0, 2, 0 },
@@ -250,6 +262,13 @@ fam_contents(const struct rspec *r, uint64_t out[3])
         break;
     }
     return n;
+}
+
+/* windows are enumerated over the ten addresses starting one below the first area */
+static inline uint32_t
+fam_origin(const struct tspec *s)
+{
+    return s->a[0].base - 1;
 }
 
 #endif /* VERIF_REGFAM_H */
